@@ -913,9 +913,10 @@ fn check_tour_inner(m: &PModel, ti: usize, t: &STour, assign: &BTreeMap<usize, u
                                 && (pi + 1..=at).any(|r| flat[r].act.job_id == "reload")
                                 && (at + 1..flat.len()).any(|di| matches!((task_of(di), matched[pi]), (Some((_, task)), Some((ji, _))) if task.kind == TaskKind::Delivery && matched[di].map(|x| x.0) == Some(ji)))
                         });
-                        let rule = if carried { "capacity-carried-over-reload" } else { "capacity" };
-                        // the overloaded activity belongs to an expanded cluster (it carries commute information)
+                        // the overloaded activity belongs to an expanded cluster (it carries commute information): the order
+                        // of the activities inside the cluster explains the overload whatever else the tour carries
                         let tag = if flat[at].act.has_commute { "cluster-activity" } else { "" };
+                        let rule = if carried && tag.is_empty() { "capacity-carried-over-reload" } else { "capacity" };
                         out.push(Issue { prop: F, rule, msg: format!("tour {ti} ({}): load {:?} vs capacity {:?} at activity {at} ({})", t.vehicle_id, load, vt.capacity, flat[at].act.job_id), tag });
                         return;
                     }
